@@ -303,7 +303,7 @@ var (
 	Numeric           = regexp.MustCompile(`^[0-9]+$`)
 	NumericDecimal    = regexp.MustCompile(`^(?:[0-9]+|[0-9]*\.[0-9]+)$`)
 	Opactiy           = regexp.MustCompile(`^opacity\(([0-9]{1,2}|100)%\)$`)
-	Perspective       = regexp.MustCompile(`perspective\(`)
+	Perspective       = regexp.MustCompile(`^perspective\(`)
 	Position          = regexp.MustCompile(`^-?[0-9]+(?:cm|mm|in|px|pt|pc|%)?(?: -?[0-9]+(?:cm|mm|in|px|pt|pc|%)?)*$`)
 	Opacity           = regexp.MustCompile(`^((0[.]?[0-9]*)|(1\.0))$`)
 	QuotedAlpha       = regexp.MustCompile(`^["'][a-z]+["']$`)
@@ -315,12 +315,12 @@ var (
 	Rotate3D          = regexp.MustCompile(`^rotate3d\(([ ]?(1(\.0)?|0\.[0-9]+),){3}([12]?|3[0-5][0-9]|360)\)$`)
 	Saturate          = regexp.MustCompile(`^saturate\([0-9]+%\)$`)
 	Sepia             = regexp.MustCompile(`^sepia\(([0-9]{1,2}|100)%\)$`)
-	Skew              = regexp.MustCompile(`skew(x|y)?\(`)
+	Skew              = regexp.MustCompile(`^skew(x|y)?\(`)
 	Span              = regexp.MustCompile(`^span [0-9]+$`)
 	Steps             = regexp.MustCompile(`^steps\([ ]*[0-9]+([ ]*,[ ]*(start|end)?)\)$`)
 	Time              = regexp.MustCompile(`^(?:[0-9]+|[0-9]*\.[0-9]+)(s|ms)?$`)
 	TransitionProp    = regexp.MustCompile(`^([a-zA-Z]+,[ ]?)*[a-zA-Z]+$`)
-	TranslateScale    = regexp.MustCompile(`(translate|translate3d|translatex|translatey|translatez|scale|scale3d|scalex|scaley|scalez)\(`)
+	TranslateScale    = regexp.MustCompile(`^(translate|translate3d|translatex|translatey|translatez|scale|scale3d|scalex|scaley|scalez)\(`)
 	URL               = regexp.MustCompile(`^url\((?:"https?://[a-z0-9\./_:]+"|'https?://[a-z0-9\./_:]+'|https?://[a-z0-9\./_:]+)\)$`)
 	ZIndex            = regexp.MustCompile(`^[\-]?[0-9]+$`)
 )
@@ -1852,17 +1852,24 @@ func TransformHandler(value string) bool {
 	if Matrix3D.MatchString(value) {
 		return true
 	}
-	subValue := string(TranslateScale.ReplaceAll([]byte(value), []byte{}))
-	trimValue := strings.Split(strings.TrimSuffix(subValue, ")"), ",")
-	valid := true
-	for _, i := range trimValue {
-		if !LengthHandler(strings.TrimSpace(i)) {
-			valid = false
-			break
-		}
+	// a function call is its name, an opening and a closing parenthesis:
+	// the name is only taken off the front, the parenthesis off the end
+	if !strings.HasSuffix(value, ")") {
+		return false
 	}
-	if valid && trimValue != nil {
-		return true
+	if TranslateScale.MatchString(value) {
+		subValue := string(TranslateScale.ReplaceAll([]byte(value), []byte{}))
+		trimValue := strings.Split(strings.TrimSuffix(subValue, ")"), ",")
+		valid := true
+		for _, i := range trimValue {
+			if !LengthHandler(strings.TrimSpace(i)) {
+				valid = false
+				break
+			}
+		}
+		if valid {
+			return true
+		}
 	}
 	if Rotate.MatchString(value) {
 		return true
@@ -1870,22 +1877,27 @@ func TransformHandler(value string) bool {
 	if Rotate3D.MatchString(value) {
 		return true
 	}
-	subValue = string(Skew.ReplaceAll([]byte(value), []byte{}))
-	subValue = strings.TrimSuffix(subValue, ")")
-	trimValue = strings.Split(subValue, ",")
-	valid = true
-	for _, i := range trimValue {
-		if !LengthHandler(strings.TrimSpace(i)) {
-			valid = false
-			break
+	if Skew.MatchString(value) {
+		subValue := string(Skew.ReplaceAll([]byte(value), []byte{}))
+		subValue = strings.TrimSuffix(subValue, ")")
+		trimValue := strings.Split(subValue, ",")
+		valid := true
+		for _, i := range trimValue {
+			if !LengthHandler(strings.TrimSpace(i)) {
+				valid = false
+				break
+			}
+		}
+		if valid {
+			return true
 		}
 	}
-	if valid {
-		return true
+	if Perspective.MatchString(value) {
+		subValue := string(Perspective.ReplaceAll([]byte(value), []byte{}))
+		subValue = strings.TrimSuffix(subValue, ")")
+		return LengthHandler(subValue)
 	}
-	subValue = string(Perspective.ReplaceAll([]byte(value), []byte{}))
-	subValue = strings.TrimSuffix(subValue, ")")
-	return LengthHandler(subValue)
+	return false
 }
 
 func TransformOriginHandler(value string) bool {
